@@ -1,7 +1,6 @@
 package codecs
 
 import (
-	"github.com/datastax/go-cassandra-native-protocol/compression/lz4"
 	"github.com/datastax/go-cassandra-native-protocol/compression/snappy"
 	"github.com/datastax/go-cassandra-native-protocol/frame"
 	"github.com/datastax/go-cassandra-native-protocol/message"
@@ -15,13 +14,13 @@ var (
 	CustomRawCodec = frame.NewRawCodec(CustomMessageCodecs...)
 
 	CustomRawCodecsWithCompression = map[string]frame.RawCodec{
-		"lz4":    frame.NewRawCodecWithCompression(&lz4.Compressor{}, CustomMessageCodecs...),
+		"lz4":    frame.NewRawCodecWithCompression(&lz4Compressor{}, CustomMessageCodecs...),
 		"snappy": frame.NewRawCodecWithCompression(&snappy.Compressor{}, CustomMessageCodecs...),
 	}
 
 	DefaultRawCodec                 = frame.NewRawCodec()
 	DefaultRawCodecsWithCompression = map[string]frame.RawCodec{
-		"lz4":    frame.NewRawCodecWithCompression(&lz4.Compressor{}),
+		"lz4":    frame.NewRawCodecWithCompression(&lz4Compressor{}),
 		"snappy": frame.NewRawCodecWithCompression(&snappy.Compressor{}),
 	}
 
